@@ -321,6 +321,27 @@ def crash_injection(run, tier, work):
         its = got["_current"].get("iter")
         if its not in (1, 3):
             run.fail("checkpoint-neither-old-nor-new", f"after a crash the final name holds iteration {its}", **what)
+    # an I/O error (disk full) raised by a write / flush / fsync instead of the process dying: the save fails, the process lives on,
+    # and the final name must still hold a complete checkpoint
+    io_points = [(i, 0.5 if e == "write" else 0.0) for i, e in enumerate(events) if e in ("write", "flush", "fsync")]
+    if tier == "quick":
+        io_points = io_points[:2] + io_points[-2:]
+    for (i, fr, d, p) in [(i, fr, *launch(i, fr, "ioerror")) for (i, fr) in io_points]:
+        out, _ = p.communicate(timeout=300)
+        run.case(key=("ioerror", i), nontrivial=True)
+        what = dict(io_error_at_event=i, event=events[i], partial_write_fraction=fr, events=events)
+        if p.returncode not in (18, 0):
+            run.broken.append(("crash-driver-exit", f"driver exit {p.returncode} for an injected I/O error at event {i}: {out[-500:]}"))
+            continue
+        final = d / "ckpt.state"
+        try:
+            with open(final, "rb") as f:
+                got = dill.load(f)
+            if got["_current"].get("iter") not in (1, 3):
+                run.fail("checkpoint-neither-old-nor-new", f"after a failed save the final name holds iteration {got['_current'].get('iter')}", **what)
+        except Exception as e:
+            run.fail("truncated-checkpoint", f"a save that FAILED with an I/O error (disk full at event {i}, {events[i]}) left an unloadable file under the "
+                     f"final name ({final.stat().st_size if final.exists() else 'missing'} bytes): {type(e).__name__}", **what)
     # power loss right after the rename: only bytes handed to the OS before the last fsync survive
     d, p = launch(0, 0.0, "powerloss")
     out, _ = p.communicate(timeout=300)
